@@ -48,7 +48,20 @@ def _model(kind):
 
 
 def _loss(y, p):
-    return (y - p['output']) ** 2
+    if 'output' in p:
+        return (y - p['output']) ** 2
+    return sum((v - 0.1 * y) ** 2 * (i + 1) for i, (k, v) in enumerate(sorted(p.items())))
+
+
+def _river_label_model():
+    """A river-style classifier function with STRING labels behind RiverWrapper (one-hot over the labels seen so far)."""
+    from ixai.utils.wrappers import RiverWrapper
+
+    def predict_one(x):
+        v = list(x.values())
+        s = v[0] - v[-1]
+        return 'neg' if s < -0.5 else ('mid' if s < 0.5 else 'pos')
+    return RiverWrapper(predict_one)
 
 
 def build(case):
@@ -60,6 +73,8 @@ def build(case):
     tree = case['storage'] == 'tree'
     names = TREE_NAMES if tree else [f'f{i}' for i in range(case['d'])]
     model = _model('tree' if tree else 'plain')
+    if case.get('model_kind') == 'river_str' and not tree:
+        model = _river_label_model()
     k = case['k']
     s = case['storage']
     if case['cls'] == 'interval':
@@ -162,6 +177,10 @@ def interfere(level):
     t.update({'a': 1.0, 'b': 2.0})
     mm = metrics.MSE()
     mm.update(1.0, 2.0)
+    from ixai.utils.wrappers import RiverWrapper
+    other = RiverWrapper(lambda x: ['alpha', 'omega', 'neg'][int(x['a']) % 3])
+    for i in range(4):
+        other({'a': i})
     random.random(), np.random.rand(3)
     del junk
     gc.collect()
@@ -203,7 +222,7 @@ def run_case(case, fresh_interpreter=False):
         return Result(False, key=f'C18:replay-raises:{type(e).__name__}',
                       detail=f'the first run succeeded, the replay after interference raised {e!r} for {case}')
     del keep
-    tag = f"{case['cls']}:{case['storage']}:{case['imputer']}"
+    tag = f"{case['cls']}:{case['storage']}:{case['imputer']}" + (':river_str_labels' if case.get('model_kind') == 'river_str' else '')
     default_seed = case['storage'] == 'tree' and case.get('tree_seed') is None
     if da != db:
         return Result(False, key=f"C18:replay-differs:{case['storage']}:{'default-tree-seed' if default_seed else 'seeded'}",
@@ -231,6 +250,9 @@ def combos():
         for storage in ('uniform', 'geometric', 'interval', 'sequence', 'batch'):
             for imputer in ('joint', 'product', 'default'):
                 out.append((cls, storage, imputer, 0))
+    for cls in ('pfi', 'sage', 'batch'):
+        out.append((cls, 'uniform', 'joint', 'river_str'))
+        out.append((cls, 'interval', 'product', 'river_str'))
     for cls in ('pfi', 'sage'):   # BatchSage/IntervalSage need get_data(), which TreeStorage does not offer
         for imputer in ('tree', 'tree+storage', 'tree+direct', 'tree+storage+direct', 'default'):
             for tree_seed in (None, 7):
@@ -252,7 +274,8 @@ def cases(draw, combo):
     return {'cls': cls, 'storage': storage, 'imputer': imputer, 'd': rev(1, 3), 'k': rev(1, 4),
             'n_inner': rev(1, 2), 'dynamic': draw(st.booleans()), 'T': T,
             'seeds': [draw(gen.seed32) % (2 ** 31), draw(gen.seed32) % (2 ** 31)], 'stream_seed': draw(st.integers(0, 10 ** 6)),
-            'tree_seed': tree_seed if storage == 'tree' else None, 'grace': draw(st.sampled_from([5, 8, 20])),
+            'tree_seed': tree_seed if storage == 'tree' else None, 'model_kind': 'river_str' if tree_seed == 'river_str' else 'plain',
+            'grace': draw(st.sampled_from([5, 8, 20])),
             'interference': rev(0, 5), 'clock_offset': draw(st.sampled_from([1000.0, 0.0, -5e8]))}
 
 
@@ -266,13 +289,15 @@ def replay(sub, case):
 def run(ctx):
     ctx.rule, ctx.assumptions = RULE, ASSUMPTIONS
     counter = {'n': 0}
-    every = 8 if ctx.thorough() else 45
+    every = 8 if ctx.thorough() else 30
     all_combos = combos()
     per = 1 if not ctx.thorough() else max(1, 6400 // (len(all_combos) * ctx.nshards))
 
     def rc(case):
-        counter['n'] += 1
-        return run_case(case, fresh_interpreter=(counter['n'] % every == 1))
+        # which cases get the (expensive) fresh-interpreter run is a pure function of the case, so that re-execution is stable
+        from ..core import digest
+        pick = int(digest(case), 16) % every == 0 or (case['storage'] == 'tree' and case['tree_seed'] is None and case['imputer'] == 'tree+storage')
+        return run_case(case, fresh_interpreter=pick)
 
     for i, combo in enumerate(all_combos):
         ctx.search(f'replay[{i}]', cases(combo), rc, per + (1 if combo[1] == 'tree' else 0), shrink=False)
